@@ -37,23 +37,76 @@ pub struct Coord;
 
 #[derive(Serialize, Deserialize, Clone, Debug)]
 pub enum CStep {
-    NeighborUp { x: u8 },
+    /// `l` selects the lane (document x pair of nodes, modulo the number of lanes), `x` the side
+    NeighborUp {
+        #[serde(default)]
+        l: u8,
+        x: u8,
+    },
     /// a sync report from the other node arrives at x; `news`: it names an author x does not have
-    SyncReport { x: u8, news: bool },
-    /// deliver the request of pending dial `d` (index modulo undelivered dials) to the callee
-    DeliverRequest { d: u8 },
+    SyncReport {
+        #[serde(default)]
+        l: u8,
+        x: u8,
+        news: bool,
+    },
+    /// deliver the request of pending dial `d` (index modulo undelivered dials of the lane) to the callee
+    DeliverRequest {
+        #[serde(default)]
+        l: u8,
+        d: u8,
+    },
     /// the request is lost: the dial fails to connect
-    LoseRequest { d: u8 },
+    LoseRequest {
+        #[serde(default)]
+        l: u8,
+        d: u8,
+    },
     /// the stream dies before the callee has read the request
-    BrokenRequest { d: u8 },
+    BrokenRequest {
+        #[serde(default)]
+        l: u8,
+        d: u8,
+    },
     /// the callee's decline reaches the dialer (index modulo declined dials)
-    DeliverAbort { d: u8 },
+    DeliverAbort {
+        #[serde(default)]
+        l: u8,
+        d: u8,
+    },
     /// the decline is lost: the dial fails with a stream error
-    LoseAbort { d: u8 },
-    FinishDialSide { s: u8, ok: bool },
-    FinishAcceptSide { s: u8, ok: bool },
-    /// a request for a document that the callee is not syncing
-    UnknownDocRequest { x: u8 },
+    LoseAbort {
+        #[serde(default)]
+        l: u8,
+        d: u8,
+    },
+    FinishDialSide {
+        #[serde(default)]
+        l: u8,
+        s: u8,
+        ok: bool,
+    },
+    FinishAcceptSide {
+        #[serde(default)]
+        l: u8,
+        s: u8,
+        ok: bool,
+    },
+    /// a request for a document that the callee is not syncing (`held`: but holds in its store)
+    UnknownDocRequest {
+        #[serde(default)]
+        l: u8,
+        x: u8,
+        #[serde(default)]
+        held: bool,
+    },
+}
+
+fn one() -> u8 {
+    1
+}
+fn two() -> u8 {
+    2
 }
 
 #[derive(Serialize, Deserialize, Clone, Debug)]
@@ -61,6 +114,14 @@ pub struct CoordPlan {
     pub seed: u64,
     /// which secret key gives node 0 (so that both id orders occur)
     pub swap_ids: bool,
+    /// rotation of the three node keys (only with three nodes)
+    #[serde(default)]
+    pub rot: u8,
+    /// documents that all nodes sync (1-2) and nodes (2-3); a lane is a document and a pair of nodes
+    #[serde(default = "one")]
+    pub docs: u8,
+    #[serde(default = "two")]
+    pub nodes: u8,
     pub steps: Vec<CStep>,
     /// how leftovers are resolved at the end: bit i = finish ok
     pub cleanup: u16,
@@ -71,7 +132,10 @@ type AcceptRes = Result<SyncFinished, AcceptError>;
 
 struct Dial {
     id: usize,
+    lane: usize,
+    /// dialing node (index into `nodes`) and the node it dials
     from: usize,
+    to: usize,
     reason: SyncReason,
     resolve: Option<oneshot::Sender<DialRes>>,
     /// request delivered to the callee?
@@ -101,19 +165,25 @@ pub struct CNode {
     _ep: Endpoint,
 }
 
-async fn mk_node(i: usize, key: [u8; 32], net: Arc<Mutex<Net>>, ns: &iroh_docs::NamespaceSecret) -> Result<CNode, String> {
+async fn mk_node(i: usize, key: [u8; 32], net: Arc<Mutex<Net>>, synced: &[&iroh_docs::NamespaceSecret], held: &[&iroh_docs::NamespaceSecret]) -> Result<CNode, String> {
     let n2 = net.clone();
     let dial: VerifDialFn = Arc::new(move |ns, peer, reason| {
         let (s, r) = oneshot::channel();
         n2.lock().unwrap().new_dials.push((i, ns, peer, reason, s));
         Box::pin(async move { r.await.unwrap_or_else(|_| Err(ConnectError::Connect { error: anyhow::anyhow!("dial dropped") })) })
     });
-    mk_node_with(key, dial, ns, &[]).await
+    mk_node_multi(key, dial, synced, held, &[]).await
+}
+
+pub async fn mk_node_with(key: [u8; 32], dial: VerifDialFn, ns: &iroh_docs::NamespaceSecret, entries: &[iroh_docs::SignedEntry]) -> Result<CNode, String> {
+    mk_node_multi(key, dial, &[ns], &[], entries).await
 }
 
 /// Build one node: real store actor, real live actor with the given dial seam; Endpoint, Gossip,
 /// blob store and downloader are real objects that carry no traffic.
-pub async fn mk_node_with(key: [u8; 32], dial: VerifDialFn, ns: &iroh_docs::NamespaceSecret, entries: &[iroh_docs::SignedEntry]) -> Result<CNode, String> {
+/// `synced` documents are imported and synced (entries go into the first), `held` ones only imported.
+pub async fn mk_node_multi(key: [u8; 32], dial: VerifDialFn, synced: &[&iroh_docs::NamespaceSecret], held: &[&iroh_docs::NamespaceSecret], entries: &[iroh_docs::SignedEntry]) -> Result<CNode, String> {
+    let ns = synced[0];
     let ep = Endpoint::builder(presets::Minimal)
         .secret_key(SecretKey::from_bytes(&key))
         .bind()
@@ -123,7 +193,9 @@ pub async fn mk_node_with(key: [u8; 32], dial: VerifDialFn, ns: &iroh_docs::Name
     let blobs = iroh_blobs::store::mem::MemStore::new();
     let dl = blobs.downloader(&ep);
     let mut store = Store::memory();
-    store.import_namespace(Capability::Write(ns.clone())).map_err(|e| format!("{e:#}"))?;
+    for d in synced.iter().chain(held.iter()) {
+        store.import_namespace(Capability::Write((*d).clone())).map_err(|e| format!("{e:#}"))?;
+    }
     if !entries.is_empty() {
         iroh_docs::verif::set_wall_clock_micros(Some(1_000_000));
         let mut r = store.open_replica(&ns.id()).map_err(|e| format!("{e}"))?;
@@ -142,9 +214,11 @@ pub async fn mk_node_with(key: [u8; 32], dial: VerifDialFn, ns: &iroh_docs::Name
     tokio::task::spawn_local(async move {
         let _ = actor.run().await;
     });
-    let (reply, rrx) = oneshot::channel();
-    tx.send(ToLiveActor::StartSync { namespace: ns.id(), peers: vec![], reply }).await.map_err(|_| "live actor gone".to_string())?;
-    rrx.await.map_err(|_| "start sync dropped".to_string())?.map_err(|e| format!("start sync: {e:#}"))?;
+    for d in synced {
+        let (reply, rrx) = oneshot::channel();
+        tx.send(ToLiveActor::StartSync { namespace: d.id(), peers: vec![], reply }).await.map_err(|_| "live actor gone".to_string())?;
+        rrx.await.map_err(|_| "start sync dropped".to_string())?.map_err(|e| format!("start sync: {e:#}"))?;
+    }
     Ok(CNode { id: ep.id(), tx, sync, _ep: ep })
 }
 
@@ -181,25 +255,31 @@ impl Scenario for Coord {
     }
 
     fn gen(&self, rng: &mut Rng, tier: Tier) -> CoordPlan {
-        let n = rng.urange(3, tier.pick(14, 22));
+        // a third of the runs: the plain pair with one document; the rest add a second document, a
+        // third node or both (then most steps still go to a few lanes so that sessions overlap)
+        let (docs, nodes) = *rng.pick(&[(1u8, 2u8), (1, 2), (2, 2), (1, 3), (1, 3), (2, 3)]);
+        let lanes = docs as u64 * if nodes == 3 { 3 } else { 1 };
+        let n = rng.urange(3, tier.pick(14, 22)) + if lanes > 1 { rng.urange(0, 10) } else { 0 };
+        let hot: Vec<u8> = (0..rng.range(1, lanes.min(3))).map(|_| rng.below(lanes) as u8).collect();
         let mut steps = Vec::new();
         for _ in 0..n {
             let x = rng.below(2) as u8;
+            let l = if rng.chance(4, 5) { *rng.pick(&hot) } else { rng.below(lanes) as u8 };
             let s = match rng.below(30) {
-                0..=5 => CStep::NeighborUp { x },
-                6..=8 => CStep::SyncReport { x, news: rng.chance(3, 4) },
-                9..=14 => CStep::DeliverRequest { d: rng.below(4) as u8 },
-                15..=16 => CStep::LoseRequest { d: rng.below(4) as u8 },
-                17 => CStep::BrokenRequest { d: rng.below(4) as u8 },
-                18..=20 => CStep::DeliverAbort { d: rng.below(4) as u8 },
-                21 => CStep::LoseAbort { d: rng.below(4) as u8 },
-                22..=24 => CStep::FinishDialSide { s: rng.below(4) as u8, ok: rng.chance(2, 3) },
-                25..=27 => CStep::FinishAcceptSide { s: rng.below(4) as u8, ok: rng.chance(2, 3) },
-                _ => CStep::UnknownDocRequest { x },
+                0..=5 => CStep::NeighborUp { l, x },
+                6..=8 => CStep::SyncReport { l, x, news: rng.chance(3, 4) },
+                9..=14 => CStep::DeliverRequest { l, d: rng.below(4) as u8 },
+                15..=16 => CStep::LoseRequest { l, d: rng.below(4) as u8 },
+                17 => CStep::BrokenRequest { l, d: rng.below(4) as u8 },
+                18..=20 => CStep::DeliverAbort { l, d: rng.below(4) as u8 },
+                21 => CStep::LoseAbort { l, d: rng.below(4) as u8 },
+                22..=24 => CStep::FinishDialSide { l, s: rng.below(4) as u8, ok: rng.chance(2, 3) },
+                25..=27 => CStep::FinishAcceptSide { l, s: rng.below(4) as u8, ok: rng.chance(2, 3) },
+                _ => CStep::UnknownDocRequest { l, x, held: rng.chance(1, 2) },
             };
             steps.push(s);
         }
-        CoordPlan { seed: rng.next_u64(), swap_ids: rng.chance(1, 2), steps, cleanup: rng.below(65536) as u16 }
+        CoordPlan { seed: rng.next_u64(), swap_ids: rng.chance(1, 2), rot: rng.below(3) as u8, docs, nodes, steps, cleanup: rng.below(65536) as u16 }
     }
 
     fn exec(&self, plan: &CoordPlan, cx: &mut Cx) -> Res {
@@ -232,7 +312,7 @@ impl Scenario for Coord {
     }
 
     fn rule(&self) -> String {
-        "A run is 3-22 network decisions between two live actors in either id order: neighbour-up and sync-report (news / no news) events, delivery / loss / breakage of each dial's request, delivery or loss of a decline, independent ok/failed completion of the dial side and the accept side of each session, requests for an unknown document; then every leftover is resolved and, at quiescence, both nodes must be idle for each other and demonstrably able to dial and to accept. Non-trivial: a loss/breakage/failure fault fired or a decline (AlreadySyncing / NotFound) or resync was observed.".into()
+        "A run is 3-32 network decisions between two or three live actors (any id order) that sync one or two documents; every (document, pair of nodes) is a lane with its own oracles and steps name their lane: neighbour-up and sync-report (news / no news) events, delivery / loss / breakage of each dial's request, delivery or loss of a decline, independent ok/failed completion of the dial side and the accept side of each session, requests for an unknown document; then every leftover is resolved and, at quiescence, in every lane both nodes must be idle for each other and demonstrably able to dial and to accept. Non-trivial: a loss/breakage/failure fault fired or a decline (AlreadySyncing / NotFound) or resync was observed.".into()
     }
 }
 
@@ -240,33 +320,66 @@ pub fn running(s: &Option<VerifPeerState>) -> Option<Origin> {
     s.as_ref().and_then(|s| s.running.clone())
 }
 
+struct Lane {
+    ns: NamespaceId,
+    n: [usize; 2],
+}
+
 async fn run(plan: &CoordPlan, cx: &mut Cx) -> Res {
     let w = world();
-    let nssec = &w.docs[0];
-    let ns = nssec.id();
-    let unknown_ns = w.doc_id(1);
+    let ndocs = plan.docs.clamp(1, 2) as usize;
+    let nn = plan.nodes.clamp(2, 3) as usize;
+    let synced: Vec<&iroh_docs::NamespaceSecret> = w.docs[..ndocs].iter().collect();
+    let held = [&w.docs[2]];
+    let held_ns = w.doc_id(2);
+    let unknown_ns = w.doc_id(3);
     let net = Arc::new(Mutex::new(Net::default()));
-    let keys: [[u8; 32]; 2] = if plan.swap_ids { [[2; 32], [1; 32]] } else { [[1; 32], [2; 32]] };
-    let n0 = mk_node(0, keys[0], net.clone(), nssec).await.map_err(harness)?;
-    let n1 = mk_node(1, keys[1], net.clone(), nssec).await.map_err(harness)?;
-    let nodes = [n0, n1];
-    let bigger = if nodes[0].id.as_bytes() > nodes[1].id.as_bytes() { 0 } else { 1 };
-    cx.ev("ids", format!("bigger={bigger}"));
+    let mut keys = vec![[1u8; 32], [2; 32], [3; 32]];
+    if plan.swap_ids {
+        keys.swap(0, 1);
+    }
+    if nn == 3 {
+        keys.rotate_left(plan.rot as usize % 3);
+    }
+    let mut nodes: Vec<CNode> = Vec::new();
+    for i in 0..nn {
+        nodes.push(mk_node(i, keys[i], net.clone(), &synced, &held).await.map_err(harness)?);
+    }
+    let mut lanes: Vec<Lane> = Vec::new();
+    for d in 0..ndocs {
+        for a in 0..nn {
+            for b in (a + 1)..nn {
+                lanes.push(Lane { ns: synced[d].id(), n: [a, b] });
+            }
+        }
+    }
+    let nl = lanes.len();
+    let mut order: Vec<usize> = (0..nn).collect();
+    order.sort_by_key(|i| *nodes[*i].id.as_bytes());
+    cx.ev("ids", format!("docs={ndocs} nodes={nn} id-order={order:?}"));
 
     let mut dials: Vec<Dial> = Vec::new();
     let outcomes: Rc<RefCell<Vec<(usize, AcceptOutcome)>>> = Rc::new(RefCell::new(Vec::new()));
     let mut step_no = 0usize;
-    // per node: (epoch, armed_epoch) for the resync oracle
-    let mut epoch = [0u32; 2];
-    let mut resync_armed: [Option<u32>; 2] = [None, None];
-    let mut was_running = [false, false];
-    let mut ever_armed = [false, false];
+    // per lane and side: (epoch, armed_epoch) for the resync oracle
+    let mut epoch = vec![[0u32; 2]; nl];
+    let mut resync_armed: Vec<[Option<u32>; 2]> = vec![[None, None]; nl];
+    let mut was_running = vec![[false, false]; nl];
+    let mut ever_armed = vec![[false, false]; nl];
 
     macro_rules! gone {
         ($e:expr) => {
             $e.map_err(|m: String| match crate::runner::recorded_panic() {
                 Some(v) => v,
                 None => Violation::new("actor-stopped/live", format!("{m} (its run loop ended with an error)")),
+            })?
+        };
+    }
+    macro_rules! send {
+        ($node:expr, $msg:expr) => {
+            nodes[$node].tx.send($msg).await.map_err(|_| match crate::runner::recorded_panic() {
+                Some(v) => v,
+                None => Violation::new("actor-stopped/live", "live actor inbox closed".to_string()),
             })?
         };
     }
@@ -277,14 +390,16 @@ async fn run(plan: &CoordPlan, cx: &mut Cx) -> Res {
             barrier().await;
             cx.sim_ms += 1;
             let fresh: Vec<_> = std::mem::take(&mut net.lock().unwrap().new_dials);
-            let mut new_by_node = [Vec::<SyncReason>::new(), Vec::<SyncReason>::new()];
+            let mut new_by: Vec<[Vec<SyncReason>; 2]> = (0..nl).map(|_| [Vec::new(), Vec::new()]).collect();
             for (from, dns, peer, reason, resolve) in fresh {
-                if dns != ns || peer != nodes[1 - from].id {
+                let Some(l) = lanes.iter().position(|l| l.ns == dns && ((l.n[0] == from && nodes[l.n[1]].id == peer) || (l.n[1] == from && nodes[l.n[0]].id == peer))) else {
                     return Err(Violation::new("dial/wrong-target", format!("node {from} dialed an unexpected peer or document")));
-                }
-                new_by_node[from].push(reason);
-                cx.ev("dial", format!("n{from} {reason:?}"));
-                dials.push(Dial { id: dials.len(), from, reason, resolve: Some(resolve), delivered: false, outcome: None, accept_fin: None, dial_done: false, accept_done: false, born_step: step_no, peer_open: vec![], callee_accepting: false });
+                };
+                let side = if lanes[l].n[0] == from { 0 } else { 1 };
+                let to = lanes[l].n[1 - side];
+                new_by[l][side].push(reason);
+                cx.ev("dial", format!("L{l} n{from}->n{to} {reason:?}"));
+                dials.push(Dial { id: dials.len(), lane: l, from, to, reason, resolve: Some(resolve), delivered: false, outcome: None, accept_fin: None, dial_done: false, accept_done: false, born_step: step_no, peer_open: vec![], callee_accepting: false });
             }
             // record answers
             for (id, o) in outcomes.borrow_mut().drain(..) {
@@ -294,40 +409,50 @@ async fn run(plan: &CoordPlan, cx: &mut Cx) -> Res {
                 }
                 dials[id].outcome = Some(o);
             }
-            let s0 = gone!(snapshot(&nodes[0], ns, nodes[1].id).await);
-            let s1 = gone!(snapshot(&nodes[1], ns, nodes[0].id).await);
-            let snaps = [s0, s1];
-            cx.ev("state", format!("{:?} | {:?}", snaps[0].as_ref().map(|s| (&s.running, s.resync_requested)), snaps[1].as_ref().map(|s| (&s.running, s.resync_requested))));
-            cx.state(crate::rng::fnv(format!("{:?}{:?}{}", snaps[0], snaps[1], dials.iter().filter(|d| !d.dial_done).count()).as_bytes()));
-            // two sessions in progress at once?
-            let in_progress: Vec<usize> = dials.iter().filter(|d| matches!(d.outcome, Some(AcceptOutcome::Allow)) && !d.dial_done && !d.accept_done).map(|d| d.id).collect();
-            if in_progress.len() > 1 {
-                return Err(Violation::new("two-sessions/overlap", format!("after {}: sessions of dials {:?} are both in progress (neither end of either has finished)", $what, in_progress)));
+            let mut snaps: Vec<[Option<VerifPeerState>; 2]> = Vec::new();
+            for l in 0..nl {
+                let s0 = gone!(snapshot(&nodes[lanes[l].n[0]], lanes[l].ns, nodes[lanes[l].n[1]].id).await);
+                let s1 = gone!(snapshot(&nodes[lanes[l].n[1]], lanes[l].ns, nodes[lanes[l].n[0]].id).await);
+                snaps.push([s0, s1]);
             }
-            // resync bookkeeping
-            for x in 0..2 {
-                let now_running = running(&snaps[x]).is_some();
-                let resyncs = new_by_node[x].iter().filter(|r| **r == SyncReason::Resync).count();
-                if was_running[x] && (!now_running || !new_by_node[x].is_empty()) {
-                    // the session that was running on x has finished in this step
-                    if let Some(e) = resync_armed[x].take() {
-                        if e == epoch[x] {
-                            if resyncs != 1 {
-                                return Err(Violation::new("resync-count/missing", format!("after {}: node {x} was told about news while a session was running; when that session finished {resyncs} follow-up dials were made (expected exactly one)", $what)));
+            let view: Vec<_> = snaps.iter().map(|s| (s[0].as_ref().map(|s| (&s.running, s.resync_requested)), s[1].as_ref().map(|s| (&s.running, s.resync_requested)))).collect();
+            cx.ev("state", format!("{view:?}"));
+            cx.state(crate::rng::fnv(format!("{:?}{}", snaps, dials.iter().filter(|d| !d.dial_done).count()).as_bytes()));
+            for l in 0..nl {
+                // two sessions in progress at once?
+                let in_progress: Vec<usize> = dials.iter().filter(|d| d.lane == l && matches!(d.outcome, Some(AcceptOutcome::Allow)) && !d.dial_done && !d.accept_done).map(|d| d.id).collect();
+                if in_progress.len() > 1 {
+                    return Err(Violation::new("two-sessions/overlap", format!("after {}: sessions of dials {:?} (same document, same pair of nodes) are both in progress (neither end of either has finished)", $what, in_progress)));
+                }
+                if in_progress.len() == 1 && dials.iter().any(|d| d.lane != l && matches!(d.outcome, Some(AcceptOutcome::Allow)) && !d.dial_done && !d.accept_done) {
+                    cx.probe("sessions_in_two_lanes_at_once");
+                }
+                // resync bookkeeping
+                for x in 0..2 {
+                    let node = lanes[l].n[x];
+                    let now_running = running(&snaps[l][x]).is_some();
+                    let resyncs = new_by[l][x].iter().filter(|r| **r == SyncReason::Resync).count();
+                    if was_running[l][x] && (!now_running || !new_by[l][x].is_empty()) {
+                        // the session that was running on x has finished in this step
+                        if let Some(e) = resync_armed[l][x].take() {
+                            if e == epoch[l][x] {
+                                if resyncs != 1 {
+                                    return Err(Violation::new("resync-count/missing", format!("after {}: node {node} was told about news while a session was running; when that session finished {resyncs} follow-up dials were made (expected exactly one)", $what)));
+                                }
+                                cx.probe("resync_after_refused_report");
                             }
-                            cx.probe("resync_after_refused_report");
+                        } else if resyncs > 0 && !ever_armed[l][x] {
+                            return Err(Violation::new("resync-count/spurious", format!("after {}: node {node} made a follow-up dial although no news report was refused during the session", $what)));
                         }
-                    } else if resyncs > 0 && !ever_armed[x] {
-                        return Err(Violation::new("resync-count/spurious", format!("after {}: node {x} made a follow-up dial although no news report was refused during the session", $what)));
                     }
+                    if resyncs > 1 {
+                        return Err(Violation::new("resync-count/many", format!("after {}: node {node} made {resyncs} follow-up dials at once", $what)));
+                    }
+                    if !new_by[l][x].is_empty() {
+                        epoch[l][x] += 1;
+                    }
+                    was_running[l][x] = now_running;
                 }
-                if resyncs > 1 {
-                    return Err(Violation::new("resync-count/many", format!("after {}: node {x} made {resyncs} follow-up dials at once", $what)));
-                }
-                if !new_by_node[x].is_empty() {
-                    epoch[x] += 1;
-                }
-                was_running[x] = now_running;
             }
             step_no += 1;
             snaps
@@ -336,7 +461,7 @@ async fn run(plan: &CoordPlan, cx: &mut Cx) -> Res {
 
     let _ = after_step!("start");
 
-    let deliver = |d: &mut Dial, callee: &CNode, caller_id: PublicKey, target_ns: NamespaceId, outcomes: Rc<RefCell<Vec<(usize, AcceptOutcome)>>>| {
+    let deliver = |d: &mut Dial, callee: &CNode, caller_id: PublicKey, target_ns: NamespaceId| {
         let (fin_tx, fin_rx) = oneshot::channel::<AcceptRes>();
         let inbox = callee.tx.clone();
         let id = d.id;
@@ -354,7 +479,6 @@ async fn run(plan: &CoordPlan, cx: &mut Cx) -> Res {
         });
         d.delivered = true;
         d.accept_fin = Some(fin_tx);
-        let _ = outcomes;
         (ToLiveActor::VerifAccept { fut: Mutex::new(Some(fut)) }, orx, id)
     };
     let mut answer_rx: Vec<(usize, std::sync::mpsc::Receiver<AcceptOutcome>)> = Vec::new();
@@ -373,9 +497,6 @@ async fn run(plan: &CoordPlan, cx: &mut Cx) -> Res {
         }};
     }
 
-    let exec_step = |_: ()| {};
-    let _ = exec_step;
-
     let mut all_steps: Vec<CStep> = plan.steps.clone();
     let mut cleanup_round = 0u32;
     let mut idx = 0usize;
@@ -384,21 +505,21 @@ async fn run(plan: &CoordPlan, cx: &mut Cx) -> Res {
             // cleanup: resolve every leftover, one per iteration, until nothing is in flight
             let bit = |k: usize| (plan.cleanup >> (k % 16)) & 1 == 1;
             let next = if let Some(d) = dials.iter().position(|d| !d.delivered && !d.dial_done) {
-                Some(CStep::LoseRequest { d: 0 }).map(|s| (s, d))
+                Some(CStep::LoseRequest { l: dials[d].lane as u8, d: 0 })
             } else if let Some(d) = dials.iter().position(|d| matches!(d.outcome, Some(AcceptOutcome::Reject(_))) && !d.dial_done) {
-                Some((CStep::DeliverAbort { d: 0 }, d))
+                Some(CStep::DeliverAbort { l: dials[d].lane as u8, d: 0 })
             } else if let Some(d) = dials.iter().position(|d| matches!(d.outcome, Some(AcceptOutcome::Allow)) && !d.accept_done) {
-                Some((CStep::FinishAcceptSide { s: 0, ok: bit(d) }, d))
+                Some(CStep::FinishAcceptSide { l: dials[d].lane as u8, s: 0, ok: bit(d) })
             } else if let Some(d) = dials.iter().position(|d| matches!(d.outcome, Some(AcceptOutcome::Allow)) && !d.dial_done) {
-                Some((CStep::FinishDialSide { s: 0, ok: bit(d + 7) }, d))
+                Some(CStep::FinishDialSide { l: dials[d].lane as u8, s: 0, ok: bit(d + 7) })
             } else {
                 None
             };
             match next {
                 None => break,
-                Some((s, _)) => {
+                Some(s) => {
                     cleanup_round += 1;
-                    if cleanup_round > 64 {
+                    if cleanup_round > 64 + 32 * nl as u32 {
                         return Err(Violation::new("progress/never-quiescent", "resolving every outstanding request and session keeps producing new dials".to_string()));
                     }
                     all_steps.push(s);
@@ -407,71 +528,78 @@ async fn run(plan: &CoordPlan, cx: &mut Cx) -> Res {
         }
         let step = all_steps[idx].clone();
         idx += 1;
+        let in_cleanup = idx > plan.steps.len();
         match &step {
-            CStep::NeighborUp { x } => {
-                let x = *x as usize % 2;
-                nodes[x].tx.send(ToLiveActor::NeighborUp { namespace: ns, peer: nodes[1 - x].id }).await.map_err(|_| Violation::new("actor-stopped/live", "live actor inbox closed".to_string()))?;
+            CStep::NeighborUp { l, x } => {
+                let (l, x) = (*l as usize % nl, *x as usize % 2);
+                send!(lanes[l].n[x], ToLiveActor::NeighborUp { namespace: lanes[l].ns, peer: nodes[lanes[l].n[1 - x]].id });
             }
-            CStep::SyncReport { x, news } => {
-                let x = *x as usize % 2;
-                let snap = gone!(snapshot(&nodes[x], ns, nodes[1 - x].id).await);
+            CStep::SyncReport { l, x, news } => {
+                let (l, x) = (*l as usize % nl, *x as usize % 2);
+                let (me, other) = (lanes[l].n[x], lanes[l].n[1 - x]);
+                let snap = gone!(snapshot(&nodes[me], lanes[l].ns, nodes[other].id).await);
                 if *news && running(&snap).is_some() {
-                    resync_armed[x] = Some(epoch[x]);
-                    ever_armed[x] = true;
+                    resync_armed[l][x] = Some(epoch[l][x]);
+                    ever_armed[l][x] = true;
                 }
-                nodes[x].tx.send(ToLiveActor::IncomingSyncReport { from: nodes[1 - x].id, report: sync_report(ns, *news) }).await.map_err(|_| Violation::new("actor-stopped/live", "live actor inbox closed".to_string()))?;
+                send!(me, ToLiveActor::IncomingSyncReport { from: nodes[other].id, report: sync_report(lanes[l].ns, *news) });
             }
-            CStep::DeliverRequest { d } => {
-                let cand: Vec<usize> = dials.iter().filter(|d| !d.delivered && !d.dial_done).map(|d| d.id).collect();
+            CStep::DeliverRequest { l, d } => {
+                let l = *l as usize % nl;
+                let cand: Vec<usize> = dials.iter().filter(|d| d.lane == l && !d.delivered && !d.dial_done).map(|d| d.id).collect();
                 if cand.is_empty() {
                     continue;
                 }
                 let id = cand[*d as usize % cand.len()];
-                let from = dials[id].from;
-                dials[id].peer_open = dials.iter().filter(|e| e.from != from && !e.dial_done).map(|e| e.id).collect();
-                dials[id].callee_accepting = dials.iter().any(|e| e.from == from && matches!(e.outcome, Some(AcceptOutcome::Allow)) && !e.accept_done);
-                let (msg, orx, id2) = deliver(&mut dials[id], &nodes[1 - from], nodes[from].id, ns, outcomes.clone());
+                let (from, to) = (dials[id].from, dials[id].to);
+                dials[id].peer_open = dials.iter().filter(|e| e.lane == l && e.from != from && !e.dial_done).map(|e| e.id).collect();
+                dials[id].callee_accepting = dials.iter().any(|e| e.lane == l && e.from == from && matches!(e.outcome, Some(AcceptOutcome::Allow)) && !e.accept_done);
+                let (msg, orx, id2) = deliver(&mut dials[id], &nodes[to], nodes[from].id, lanes[l].ns);
                 answer_rx.push((id2, orx));
-                nodes[1 - from].tx.send(msg).await.map_err(|_| Violation::new("actor-stopped/live", "live actor inbox closed".to_string()))?;
+                send!(to, msg);
                 // the callee answers within this step
                 barrier().await;
                 poll_answers!();
                 // a callee that allows starts a new session epoch
                 if let Some((_, AcceptOutcome::Allow)) = outcomes.borrow().last() {
-                    epoch[1 - from] += 1;
+                    let side = if lanes[l].n[0] == to { 0 } else { 1 };
+                    epoch[l][side] += 1;
                 }
             }
-            CStep::LoseRequest { d } => {
-                let cand: Vec<usize> = dials.iter().filter(|d| !d.delivered && !d.dial_done).map(|d| d.id).collect();
+            CStep::LoseRequest { l, d } => {
+                let l = *l as usize % nl;
+                let cand: Vec<usize> = dials.iter().filter(|d| d.lane == l && !d.delivered && !d.dial_done).map(|d| d.id).collect();
                 if cand.is_empty() {
                     continue;
                 }
-                let id = if idx > plan.steps.len() { cand[0] } else { cand[*d as usize % cand.len()] };
+                let id = if in_cleanup { cand[0] } else { cand[*d as usize % cand.len()] };
                 dials[id].resolve.take().unwrap().send(Err(ConnectError::Connect { error: anyhow::anyhow!("request lost") })).ok();
                 dials[id].dial_done = true;
                 dials[id].delivered = true;
                 cx.fault("request_lost");
             }
-            CStep::BrokenRequest { d } => {
-                let cand: Vec<usize> = dials.iter().filter(|d| !d.delivered && !d.dial_done).map(|d| d.id).collect();
+            CStep::BrokenRequest { l, d } => {
+                let l = *l as usize % nl;
+                let cand: Vec<usize> = dials.iter().filter(|d| d.lane == l && !d.delivered && !d.dial_done).map(|d| d.id).collect();
                 if cand.is_empty() {
                     continue;
                 }
                 let id = cand[*d as usize % cand.len()];
-                let from = dials[id].from;
+                let to = dials[id].to;
                 let fut = Box::pin(async move { Err(AcceptError::Connect { error: anyhow::anyhow!("stream broke before the request was read") }) });
-                nodes[1 - from].tx.send(ToLiveActor::VerifAccept { fut: Mutex::new(Some(fut)) }).await.map_err(|_| Violation::new("actor-stopped/live", "live actor inbox closed".to_string()))?;
+                send!(to, ToLiveActor::VerifAccept { fut: Mutex::new(Some(fut)) });
                 dials[id].resolve.take().unwrap().send(Err(ConnectError::Sync { error: anyhow::anyhow!("stream broke") })).ok();
                 dials[id].dial_done = true;
                 dials[id].delivered = true;
                 cx.fault("request_broken");
             }
-            CStep::DeliverAbort { d } | CStep::LoseAbort { d } => {
-                let cand: Vec<usize> = dials.iter().filter(|d| matches!(d.outcome, Some(AcceptOutcome::Reject(_))) && !d.dial_done).map(|d| d.id).collect();
+            CStep::DeliverAbort { l, d } | CStep::LoseAbort { l, d } => {
+                let l = *l as usize % nl;
+                let cand: Vec<usize> = dials.iter().filter(|d| d.lane == l && matches!(d.outcome, Some(AcceptOutcome::Reject(_))) && !d.dial_done).map(|d| d.id).collect();
                 if cand.is_empty() {
                     continue;
                 }
-                let id = if idx > plan.steps.len() { cand[0] } else { cand[*d as usize % cand.len()] };
+                let id = if in_cleanup { cand[0] } else { cand[*d as usize % cand.len()] };
                 let Some(AcceptOutcome::Reject(reason)) = dials[id].outcome.clone() else { unreachable!() };
                 let res = if matches!(step, CStep::DeliverAbort { .. }) {
                     Err(ConnectError::RemoteAbort(reason))
@@ -483,36 +611,39 @@ async fn run(plan: &CoordPlan, cx: &mut Cx) -> Res {
                 dials[id].dial_done = true;
                 dials[id].accept_done = true;
             }
-            CStep::FinishDialSide { s, ok } => {
-                let cand: Vec<usize> = dials.iter().filter(|d| matches!(d.outcome, Some(AcceptOutcome::Allow)) && !d.dial_done).map(|d| d.id).collect();
+            CStep::FinishDialSide { l, s, ok } => {
+                let l = *l as usize % nl;
+                let cand: Vec<usize> = dials.iter().filter(|d| d.lane == l && matches!(d.outcome, Some(AcceptOutcome::Allow)) && !d.dial_done).map(|d| d.id).collect();
                 if cand.is_empty() {
                     continue;
                 }
-                let id = if idx > plan.steps.len() { cand[0] } else { cand[*s as usize % cand.len()] };
-                let from = dials[id].from;
-                let res = if *ok { Ok(finished(ns, nodes[1 - from].id)) } else { cx.fault("dial_side_failed"); Err(ConnectError::Sync { error: anyhow::anyhow!("session failed") }) };
+                let id = if in_cleanup { cand[0] } else { cand[*s as usize % cand.len()] };
+                let to = dials[id].to;
+                let res = if *ok { Ok(finished(lanes[l].ns, nodes[to].id)) } else { cx.fault("dial_side_failed"); Err(ConnectError::Sync { error: anyhow::anyhow!("session failed") }) };
                 dials[id].resolve.take().unwrap().send(res).ok();
                 dials[id].dial_done = true;
             }
-            CStep::FinishAcceptSide { s, ok } => {
-                let cand: Vec<usize> = dials.iter().filter(|d| matches!(d.outcome, Some(AcceptOutcome::Allow)) && !d.accept_done).map(|d| d.id).collect();
+            CStep::FinishAcceptSide { l, s, ok } => {
+                let l = *l as usize % nl;
+                let cand: Vec<usize> = dials.iter().filter(|d| d.lane == l && matches!(d.outcome, Some(AcceptOutcome::Allow)) && !d.accept_done).map(|d| d.id).collect();
                 if cand.is_empty() {
                     continue;
                 }
-                let id = if idx > plan.steps.len() { cand[0] } else { cand[*s as usize % cand.len()] };
+                let id = if in_cleanup { cand[0] } else { cand[*s as usize % cand.len()] };
                 let from = dials[id].from;
-                let res = if *ok { Ok(finished(ns, nodes[from].id)) } else { cx.fault("accept_side_failed"); Err(AcceptError::Sync { peer: nodes[from].id, namespace: Some(ns), error: anyhow::anyhow!("session failed") }) };
+                let res = if *ok { Ok(finished(lanes[l].ns, nodes[from].id)) } else { cx.fault("accept_side_failed"); Err(AcceptError::Sync { peer: nodes[from].id, namespace: Some(lanes[l].ns), error: anyhow::anyhow!("session failed") }) };
                 if let Some(f) = dials[id].accept_fin.take() {
                     f.send(res).ok();
                 }
                 dials[id].accept_done = true;
             }
-            CStep::UnknownDocRequest { x } => {
-                let x = *x as usize % 2;
+            CStep::UnknownDocRequest { l, x, held } => {
+                let (l, x) = (*l as usize % nl, *x as usize % 2);
+                let (me, other) = (lanes[l].n[x], lanes[l].n[1 - x]);
                 let (reply, rx) = oneshot::channel();
-                nodes[x].tx.send(ToLiveActor::AcceptSyncRequest { namespace: unknown_ns, peer: nodes[1 - x].id, reply }).await.map_err(|_| Violation::new("actor-stopped/live", "live actor inbox closed".to_string()))?;
+                send!(me, ToLiveActor::AcceptSyncRequest { namespace: if *held { held_ns } else { unknown_ns }, peer: nodes[other].id, reply });
                 let o = rx.await.map_err(|_| Violation::new("actor-stopped/live", "no answer to a sync request".to_string()))?;
-                cx.probe("request_for_unknown_document");
+                cx.probe(if *held { "request_for_held_unsynced_document" } else { "request_for_unknown_document" });
                 if !matches!(o, AcceptOutcome::Reject(AbortReason::NotFound)) {
                     return Err(Violation::new("notfound/answer", format!("a request for a document that is not being synced was answered with {o:?}")));
                 }
@@ -526,7 +657,7 @@ async fn run(plan: &CoordPlan, cx: &mut Cx) -> Res {
             for b in (a + 1)..dials.len() {
                 let (da, db) = (&dials[a], &dials[b]);
                 // each request was delivered while the other node's dial was its only unresolved one
-                if da.from != db.from && da.outcome.is_some() && db.outcome.is_some() && da.peer_open == vec![db.id] && db.peer_open == vec![da.id] && !da.callee_accepting && !db.callee_accepting {
+                if da.lane == db.lane && da.from != db.from && da.outcome.is_some() && db.outcome.is_some() && da.peer_open == vec![db.id] && db.peer_open == vec![da.id] && !da.callee_accepting && !db.callee_accepting {
                     let allows = [da, db].iter().filter(|d| matches!(d.outcome, Some(AcceptOutcome::Allow))).count();
                     if allows != 1 {
                         return Err(Violation::new(if allows == 0 { "tiebreak/none-accepted" } else { "tiebreak/both-accepted" }, format!("nodes dialed each other simultaneously (dials {a} and {b}); {allows} of the two requests were accepted")));
@@ -541,35 +672,44 @@ async fn run(plan: &CoordPlan, cx: &mut Cx) -> Res {
 
     // ---- quiescence: nothing is in flight -----------------------------------------------------
     let snaps = after_step!("quiescence");
-    for x in 0..2 {
-        if let Some(o) = running(&snaps[x]) {
-            let hist: Vec<String> = dials.iter().map(|d| format!("d{}:n{}:{:?}:{:?}", d.id, d.from, d.reason, d.outcome)).collect();
-            let who = if x == bigger { "bigger-id" } else { "smaller-id" };
-            return Err(Violation::new(format!("progress/stuck-{}", match o { Origin::Connect(_) => "dialing", Origin::Accept => "accepting" }), format!("nothing is in flight, but the {who} node {x} still marks the pair as busy ({o:?}); history {hist:?}")));
+    for l in 0..nl {
+        for x in 0..2 {
+            if let Some(o) = running(&snaps[l][x]) {
+                let hist: Vec<String> = dials.iter().map(|d| format!("d{}:L{}:n{}:{:?}:{:?}", d.id, d.lane, d.from, d.reason, d.outcome)).collect();
+                let (me, other) = (lanes[l].n[x], lanes[l].n[1 - x]);
+                let who = if nodes[me].id.as_bytes() > nodes[other].id.as_bytes() { "bigger-id" } else { "smaller-id" };
+                return Err(Violation::new(format!("progress/stuck-{}", match o { Origin::Connect(_) => "dialing", Origin::Accept => "accepting" }), format!("nothing is in flight, but the {who} node {me} still marks the pair as busy ({o:?}); history {hist:?}")));
+            }
         }
     }
     // behavioural probe: each node can dial ...
-    for x in 0..2 {
-        nodes[x].tx.send(ToLiveActor::NeighborUp { namespace: ns, peer: nodes[1 - x].id }).await.map_err(|_| Violation::new("actor-stopped/live", "live actor inbox closed".to_string()))?;
-        barrier().await;
-        let fresh: Vec<_> = std::mem::take(&mut net.lock().unwrap().new_dials);
-        if fresh.len() != 1 {
-            return Err(Violation::new("progress/cannot-dial", format!("at quiescence a new neighbour event on node {x} produced {} dials", fresh.len())));
+    for l in 0..nl {
+        for x in 0..2 {
+            let (me, other) = (lanes[l].n[x], lanes[l].n[1 - x]);
+            send!(me, ToLiveActor::NeighborUp { namespace: lanes[l].ns, peer: nodes[other].id });
+            barrier().await;
+            let fresh: Vec<_> = std::mem::take(&mut net.lock().unwrap().new_dials);
+            let right = fresh.iter().filter(|(f, n, p, _, _)| *f == me && *n == lanes[l].ns && *p == nodes[other].id).count();
+            if fresh.len() != 1 || right != 1 {
+                return Err(Violation::new("progress/cannot-dial", format!("at quiescence a new neighbour event on node {me} produced {} dials ({right} to the right peer and document)", fresh.len())));
+            }
+            for (_f, _n, _p, _r, resolve) in fresh {
+                resolve.send(Err(ConnectError::Connect { error: anyhow::anyhow!("probe") })).ok();
+            }
+            barrier().await;
         }
-        for (_f, _n, _p, _r, resolve) in fresh {
-            resolve.send(Err(ConnectError::Connect { error: anyhow::anyhow!("probe") })).ok();
-        }
-        barrier().await;
     }
     // ... and accept
-    for x in 0..2 {
-        let (reply, rx) = oneshot::channel();
-        nodes[x].tx.send(ToLiveActor::AcceptSyncRequest { namespace: ns, peer: nodes[1 - x].id, reply }).await.map_err(|_| Violation::new("actor-stopped/live", "live actor inbox closed".to_string()))?;
-        let o = rx.await.map_err(|_| Violation::new("actor-stopped/live", "no answer".to_string()))?;
-        if !matches!(o, AcceptOutcome::Allow) {
-            return Err(Violation::new("progress/cannot-accept", format!("at quiescence node {x} declines a fresh request: {o:?}")));
+    for l in 0..nl {
+        for x in 0..2 {
+            let (me, other) = (lanes[l].n[x], lanes[l].n[1 - x]);
+            let (reply, rx) = oneshot::channel();
+            send!(me, ToLiveActor::AcceptSyncRequest { namespace: lanes[l].ns, peer: nodes[other].id, reply });
+            let o = rx.await.map_err(|_| Violation::new("actor-stopped/live", "no answer".to_string()))?;
+            if !matches!(o, AcceptOutcome::Allow) {
+                return Err(Violation::new("progress/cannot-accept", format!("at quiescence node {me} declines a fresh request: {o:?}")));
+            }
         }
     }
     Ok(())
 }
-
